@@ -1,7 +1,7 @@
 (* C07 - The traced schema does not depend on sample order or repetition.
    Model: Trace/Tracer.v (trace, to_field, from_samples), compared with the crate on every run
    (exhaustive leaf pairs x 16 option sets, triples, nested shapes). *)
-From Verif Require Import Tracer Coerce Coerce_proofs CoerceTable CoerceTable_proofs TracerTablesSpec Null_proofs Struct_proofs.
+From Verif Require Import Tracer Coerce Coerce_proofs CoerceTable CoerceTable_proofs TracerTablesSpec Null_proofs Struct_proofs Project_proofs FlatRecords_proofs.
 From Coq Require Import Permutation.
 
 (* Full-strength statement (kept visible): evaluated on the implementation on every run by the
@@ -103,8 +103,52 @@ Theorem C07_fields_in_first_seen_order : forall o d samples t t',
                                (match t with TStruct _ _ _ fs => map fname3 fs | _ => [] end).
 Proof. exact record_collection_names. Qed.
 
+(* ---- records: the projection theorem ----
+   A collection of record samples (distinct keys within a sample, field values of ANY nested shape) traced into a fresh position
+   gives a record tracer in which the tracer of every field k is exactly the result of tracing the values of k alone, in the order
+   of the samples, into a fresh tracer - marked nullable iff some sample does not mention k; fields no sample mentions do not
+   exist.  The fields of a record are traced independently of each other, so every order law of a record position reduces to the
+   order laws of its fields (and, applied again, of the fields of nested records). *)
+Theorem C07_record_projection : forall o d SS n0 t,
+  SS <> [] -> Forall (fun fa => NoDup (map fst fa)) SS ->
+  trace_seq' o d (map VStruct SS) (Ok (TUnknown n0)) = Ok t ->
+  exists m fs, t = TStruct n0 m (length SS) fs /\
+    forall k, match fget2 k fs with
+              | Some (tk, _) => vals k SS <> [] /\
+                                exists T, trace_seq' o (S d + count_dots k) (vals k SS) (Ok (TUnknown false)) = Ok T /\ tk = mk (missing k SS) T
+              | None => vals k SS = []
+              end.
+Proof. exact record_projection. Qed.
+
+(* ... with the leaf-level closed form: tables (records whose field values are leaf-like: scalars, strings, bytes, unit, None, Some /
+   newtype wrappers of those) give the same field tracers - type and nullability of every column - in every order of the samples,
+   whenever both orders trace; only the order of the fields (first seen) may differ *)
+Theorem C07_tables_order_independent : forall o d SS SS' n0 m s fs m' s' fs',
+  Permutation SS SS' -> Forall (fun fa => NoDup (map fst fa)) SS ->
+  (forall k, exists l, all_atoms o (vals k SS) = Some l) ->
+  trace_seq' o d (map VStruct SS) (Ok (TUnknown n0)) = Ok (TStruct n0 m s fs) ->
+  trace_seq' o d (map VStruct SS') (Ok (TUnknown n0)) = Ok (TStruct n0 m' s' fs') ->
+  forall k, option_map fst (fget2 k fs) = option_map fst (fget2 k fs').
+Proof. exact flat_records_order_independent. Qed.
+
+(* non-vacuity: three records in two orders; column types and nullabilities agree, the field order differs *)
+Example C07_tables_example :
+  let o := {| o_allow_null := false; o_map_as_struct := true; o_large_list := true; o_large_utf8 := true; o_dict := false;
+              o_coerce := true; o_to_string := false; o_guess_dates := false; o_enums_str := false |} in
+  let r1 := [(b "a", VInt I8 1); (b "s", VSome (VStr (b "x")))] in
+  let r2 := [(b "b", VBool true); (b "a", VInt U16 7)] in
+  let r3 := [(b "a", VF32 0); (b "s", VNone)] in
+  exists m1 s1 fs1 m2 s2 fs2,
+    trace_seq' o 0 (map VStruct [r1; r2; r3]) (Ok (TUnknown false)) = Ok (TStruct false m1 s1 fs1) /\
+    trace_seq' o 0 (map VStruct [r3; r2; r1]) (Ok (TUnknown false)) = Ok (TStruct false m2 s2 fs2) /\
+    map (fun k => option_map fst (fget2 k fs1)) [b "a"; b "s"; b "b"] = [Some (TPrim false PFloat64); Some (TPrim true (PStr true)); Some (TPrim true PBool)] /\
+    map fname3 fs1 = [b "a"; b "s"; b "b"] /\ map fname3 fs2 = [b "a"; b "s"; b "b"].
+Proof. do 6 eexists. vm_compute. repeat split; reflexivity. Qed.
+
 Print Assumptions C07_leaf_perm_partial.
 Print Assumptions C07_leaf_success_order_free_partial.
 Print Assumptions C07_coerce_arms_match_model.
 Print Assumptions C07_null_commutes_with_any_sample.
 Print Assumptions C07_fields_in_first_seen_order.
+Print Assumptions C07_record_projection.
+Print Assumptions C07_tables_order_independent.
